@@ -8,6 +8,13 @@
    payload columns of several types and ranks, integer keys of every scalar type, ALL permutations of <= 5 elements
    and all invalid index vectors of <= 3 elements; TLC (spec/RelTrace.tla) judges every record and counts the
    exhaustive groups.  128-bit payloads / keys are kept in separate sub-cases (signature payload/key = u128/i128).
+3. compiled form (B2, same judge): the harness builds the table from one graph input per column, compiles the graph with
+   the real compile_context and evaluates it with seeded protocol randomness: ALL tables of 1..4 rows x 1..3 key bits
+   with a private key column, sampled shapes up to 12 rows x every key width 1..10 (odd widths = short first radix
+   chunk) with duplicate keys and payload columns of several types / ranks, owner per column in {party 0,1,2, public},
+   every kind of output party set, inline modes Simple / depth-optimized; integer keys (bit, 8..64 bit, signed) through
+   the compiled SortByIntegerKey.  TLC judges the returned table against the same stable-sort relation, so the secure
+   sort must return exactly the (unique) plaintext result.
 """
 import itertools, random
 from . import lib
@@ -113,6 +120,78 @@ def run(chk):
             if s % 2:
                 cols.reverse()
             add({"kind": "isort", "grp": "isort-key128" if w == 128 else "isort-%s" % st, "cols": cols})
+    # ---- the compiled (secure) sort: the same tables through compile_context (RadixSortMPC: 2-bit chunks with a short
+    # first chunk when the width is odd, shuffle / reveal / unshuffle), one graph input per column so that every column has
+    # its own owner (party 0/1/2 or public), result revealed to any non-empty set of parties, several inline modes, the
+    # protocol randomness seeded per case.  TLC judges the returned table against the same stable-sort relation.
+    comp_rnd = random.Random(chk.seed * 31 + 18)
+    nshape = [0]
+
+    def comp_seed(k):
+        # bitrel_common keeps all jobs with the same compiled // 1000 in one harness process (it compiles a shape once)
+        return 1000 * nshape[0] + (chk.seed + k) % 1000
+
+    own_cycle = [[0, 0], [0, 1], [1, 2], [2, "pub"], [1, 1], [2, 0]]
+    out_cycle = [[0], [1], [2], [0, 1], [1, 2], [0, 2], [0, 1, 2]]
+    modes = ["Simple", "Default"] if quick else ["Simple", "Default", "Extreme"]
+    # all tables of 1..4 rows x 1..3 key bits (thorough: the larger shapes of the plaintext part too), private key
+    for si, (n, b) in enumerate(shapes):
+        grp = "csort-%d-%d" % (n, b)
+        claims.append({"grp": grp, "what": "sort", "n": n, "b": b, "count": 0})
+        nshape[0] += 1
+        owners, outs, mode = own_cycle[si % len(own_cycle)], out_cycle[si % len(out_cycle)], modes[si % len(modes)]
+        for t in range(1 << (n * b)):
+            key = [(t >> i) & 1 for i in range(n * b)]
+            add({"kind": "sort", "grp": grp, "cols": [col("key", "b", [n, b], key), col("pay", "u8", [n], [10 + i for i in range(n)])],
+                 "compiled": comp_seed(t), "owners": owners, "outs": outs, "mode": mode})
+    # sampled shapes up to 12 rows x 10 key bits (every width 1..10 in turn), duplicates forced by a small key pool,
+    # payload columns of several types and ranks, random owner per column / output parties / inline mode; several tables
+    # (and seeds) per compiled shape
+    ncshape, ntab = (60, 8) if quick else (600, 12)
+    own_pool = [0, 1, 2, 0, 1, 2, "pub"]
+    for s in range(ncshape):
+        nshape[0] += 1
+        n = comp_rnd.randint(2, 12) if s % 6 else comp_rnd.randint(1, 2)
+        b = 1 + s % 10
+        ncol = comp_rnd.randint(0, 3)
+        ptypes = [(comp_rnd.choice(pay_types), comp_rnd.choice([[], [2], [2, 3], [1]])) for _ in range(ncol)]
+        order = list(range(ncol + 2))
+        comp_rnd.shuffle(order)
+        owners = [comp_rnd.choice(own_pool) for _ in order]
+        if s % 4:    # mostly a private key column (the radix sort protocol); otherwise whatever was drawn
+            owners[order.index(0)] = comp_rnd.randint(0, 2)
+        outs = sorted(comp_rnd.sample([0, 1, 2], comp_rnd.randint(1, 3)))
+        mode = comp_rnd.choice(modes)
+        for k in range(ntab):
+            pool = [comp_rnd.getrandbits(b) for _ in range(comp_rnd.randint(1, max(1, n // 2 + 1)))]
+            keyv = []
+            for _ in range(n):
+                kk = comp_rnd.choice(pool)
+                keyv += [(kk >> (b - 1 - i)) & 1 for i in range(b)]
+            cols = [col("key", "b", [n, b], keyv), col("tag", "u8", [n], list(range(n)))]
+            for ci, (st, rs) in enumerate(ptypes):
+                cols.append(rand_col(comp_rnd, "p%d" % ci, st, n, rs))
+            add({"kind": "sort", "grp": "csort-sampled", "cols": [cols[i] for i in order], "compiled": comp_seed(k),
+                 "owners": owners, "outs": outs, "mode": mode})
+    # compiled integer-key sort (a2b, sign handling, the same radix sort, b2a): bit keys (width 1), 8..64-bit keys
+    ikeys = ["b", "u8", "i8", "u16", "i16"] if quick else ["b", "u8", "i8", "u16", "i16", "u32", "i32", "u64", "i64"]
+    for st in ikeys:
+        w = BITS[st]
+        m = (1 << w) - 1
+        pal = [0, 1] if st == "b" else bc.boundary(w) + [comp_rnd.getrandbits(w) for _ in range(4)]
+        for sh in range(3 if quick else 8):
+            nshape[0] += 1
+            n = comp_rnd.randint(2, 8)
+            rs = comp_rnd.choice([[], [2], [2, 2]])
+            owners = [comp_rnd.choice(own_pool[:6]), comp_rnd.choice(own_pool)]
+            outs = sorted(comp_rnd.sample([0, 1, 2], comp_rnd.randint(1, 3)))
+            mode = comp_rnd.choice(modes)
+            for k in range(10 if quick else 40):
+                sub = [comp_rnd.choice(pal) & m for _ in range(comp_rnd.randint(1, 4))]
+                keys = [comp_rnd.choice(sub) for _ in range(n)]
+                cols = [col("key", st, [n], keys), col("pay", "u16", [n] + rs, range(n * prod(rs)))]
+                add({"kind": "isort", "grp": "cisort-%s" % st, "cols": cols if sh % 2 == 0 else cols[::-1], "compiled": comp_seed(k),
+                     "owners": owners if sh % 2 == 0 else owners[::-1], "outs": outs, "mode": mode})
     # ---- permutations: all of <= 5 elements; invalid index vectors
     a_kinds = [("u8", []), ("i64", [2]), ("b", [3]), ("u16", [2, 2]), ("u64", [])]
     for n in range(1, 6):
@@ -151,6 +230,8 @@ def run(chk):
                 sig = {"kind": rec["kind"], "key": "u128"}
             else:
                 sig["key_type"] = keyst
+            if rec.get("compiled"):
+                sig["compiled"] = 1
         elif rec["kind"] == "perm":
             if job["a"]["st"] in ("u128", "i128"):
                 sig = {"kind": "perm", "payload": "u128"}
@@ -165,6 +246,7 @@ def run(chk):
     chk.note("exhaustive_groups", [c["grp"] for c in claims])
     chk.note("exhaustive_sort_tables", sum(1 << (c["n"] * c["b"]) for c in claims if c["what"] == "sort"))
     chk.note("invalid_permutations", ninv)
+    chk.note("compiled_sort_shapes", nshape[0])
     chk.note("failing_records", len(bad))
     chk.exhaustive = True
     for r in recs:
@@ -174,13 +256,22 @@ def run(chk):
                         "key_out": ["".join(map(str, k)) for k in r["res"]["cols"]["key"]["rows"]]}, cap=3)
         if r["kind"] == "perm" and r["grp"] == "perm-4" and r["ap"]["out"] == "ok":
             chk.sample({"kind": "perm", "p": r["p"], "a": r["a"], "applied": r["ap"]["rows"], "inverse": [x[0] for x in r["inv"]["rows"]]}, cap=5)
+    ncs = 0
+    for r in recs:   # compiled sort, odd key width
+        if ncs < 2 and r["kind"] == "sort" and r["grp"] == "csort-sampled" and r["res"]["out"] == "ok" \
+                and r["in"]["cols"]["key"]["n"] in (4, 5, 6) and len(r["in"]["cols"]["key"]["rows"][0]) % 2 == 1:
+            ncs += 1
+            chk.sample({"kind": "compiled sort", "key_in": ["".join(map(str, k)) for k in r["in"]["cols"]["key"]["rows"]],
+                        "tag_out": [t[0] for t in r["res"]["cols"]["tag"]["rows"]],
+                        "key_out": ["".join(map(str, k)) for k in r["res"]["cols"]["key"]["rows"]]}, cap=8)
     if not chk.samples:
         r = recs[0]
         chk.sample({"kind": r["kind"], "in": r["in"]["cols"]["key"]["rows"], "out": r["res"]["cols"]["key"]["rows"]})
     chk.assumptions += [
         "bit-string keys: element 0 of a key row is the most significant (rows are ordered lexicographically)",
         "ApplyPermutation(a, p)[i] = a[p[i]] (the convention of the evaluator); the property itself only needs the round trip",
-        "the compiled (secure) sort is judged by the C01/C02 machinery, not here",
+        "compiled sort: all parties' views are evaluated by one SimpleEvaluator (functional correctness of the protocol output; "
+        "who-sees-what is judged by the C01/C02 machinery); secret-shared (IOStatus::Shared) inputs/outputs are not driven",
     ]
 
 
